@@ -54,14 +54,23 @@ type replayer struct {
 	scratch string
 	bins    map[string]string // pkg dir name -> test binary
 	errs    map[string]string
+	race    bool // build the native replay binary with the race detector (C19)
 }
 
 var harnessFuncRe = regexp.MustCompile(`(?m)^func (Verif[A-Za-z0-9_]+)\(\)`)
 
 func (r *replayer) build(pkgDir string) (string, error) {
-	if b, ok := r.bins[pkgDir]; ok {
+	key := pkgDir
+	if r.race {
+		key += "+race"
+	}
+	return r.buildKey(pkgDir, key)
+}
+
+func (r *replayer) buildKey(pkgDir, key string) (string, error) {
+	if b, ok := r.bins[key]; ok {
 		if b == "" {
-			return "", fmt.Errorf("%s", r.errs[pkgDir])
+			return "", fmt.Errorf("%s", r.errs[key])
 		}
 		return b, nil
 	}
@@ -100,17 +109,22 @@ func (r *replayer) build(pkgDir string) (string, error) {
 	ov, _ := json.Marshal(map[string]interface{}{"Replace": repl})
 	ovPath := filepath.Join(r.scratch, "overlay_"+pkgDir+".json")
 	os.WriteFile(ovPath, ov, 0o644)
-	bin := filepath.Join(r.scratch, pkgDir+".test")
-	cmd := exec.Command("go", "test", "-c", "-vet=off", "-overlay", ovPath, "-o", bin, ip)
+	bin := filepath.Join(r.scratch, strings.ReplaceAll(key, "+", "_")+".test")
+	buildArgs := []string{"test", "-c", "-vet=off", "-overlay", ovPath, "-o", bin}
+	if r.race {
+		buildArgs = append(buildArgs, "-race")
+	}
+	buildArgs = append(buildArgs, ip)
+	cmd := exec.Command("go", buildArgs...)
 	cmd.Dir = r.eng.repo
 	cmd.Env = append(os.Environ(), "GOFLAGS=-mod=readonly", "GOPROXY=off", "GOSUMDB=off", "GOTOOLCHAIN=local")
 	out, err := cmd.CombinedOutput()
 	if err != nil {
-		r.bins[pkgDir] = ""
-		r.errs[pkgDir] = fmt.Sprintf("native build failed: %v\n%s", err, out)
-		return "", fmt.Errorf("%s", r.errs[pkgDir])
+		r.bins[key] = ""
+		r.errs[key] = fmt.Sprintf("native build failed: %v\n%s", err, out)
+		return "", fmt.Errorf("%s", r.errs[key])
 	}
-	r.bins[pkgDir] = bin
+	r.bins[key] = bin
 	return bin, nil
 }
 
@@ -125,6 +139,9 @@ func (r *replayer) replay(harness string, tapePath string) string {
 	cmd.Env = append(os.Environ(), "VERIF_TAPE="+tapePath)
 	cmd.Dir = pkgDirOf(r.eng.repo, harnessPkgs[pkgDir])
 	out, _ := cmd.CombinedOutput()
+	if r.race && strings.Contains(string(out), "WARNING: DATA RACE") {
+		return "REPLAY confirmed-race the race detector reports a data race between the two operations"
+	}
 	for _, l := range strings.Split(string(out), "\n") {
 		if strings.HasPrefix(l, "REPLAY ") {
 			return strings.TrimSpace(l)
@@ -271,7 +288,7 @@ func cmdCheck(args []string) {
 	e := newEngine(*repo, *verif, tier)
 	scratch, _ := os.MkdirTemp("", "symgo-")
 	defer os.RemoveAll(scratch)
-	rp := &replayer{eng: e, scratch: scratch, bins: map[string]string{}, errs: map[string]string{}}
+	rp := &replayer{eng: e, scratch: scratch, bins: map[string]string{}, errs: map[string]string{}, race: *prop == "C19"}
 
 	if *replayTape != "" {
 		tb, err := os.ReadFile(*replayTape)
